@@ -768,6 +768,9 @@ class Engine(Interp):
             if bools_only:
                 if isinstance(v, Int) and v.bits == 1 and v.is_const():
                     key.append((l, (), v.lo))
+                elif isinstance(v, Iter) and v.cells and v.pos is not None and v.pos <= max(v.cells) + 1:
+                    # elements known by position: walk through them one by one (bounded by the number of known positions)
+                    key.append((l, ("pos",), v.pos))
                 continue
             for p, leaf in int_leaves(v):
                 if leaf.is_const():
@@ -850,7 +853,7 @@ class Engine(Interp):
             if from_bb is not None:
                 for h, (scc, mod, _hn) in loops.items():
                     if from_bb in scc and bb not in scc:
-                        tag = tuple(x for x in tag if not (isinstance(x, tuple) and len(x) == 4 and x[0] == "L" and x[1] == frame.uid and x[2] == h))
+                        tag = tuple(x for x in tag if not (isinstance(x, tuple) and len(x) == 4 and x[0] in ("L", "F") and x[1] == frame.uid and x[2] == h))
             if from_bb is not None:
                 # inside the body of an iterator-driven loop the constant boolean flags it modifies keep the states apart as well, so that
                 # what was established on the path that left a flag untouched is not merged with the path that set it before the loop head
@@ -858,11 +861,13 @@ class Engine(Interp):
                     if hn and bb != h and bb in scc and (body.key, h) not in self.part_overflow:
                         fk = self.flag_key(s, frame, mod)
                         if fk is not None:
-                            tag = tuple(x for x in tag if not (isinstance(x, tuple) and len(x) == 4 and x[0] == "L" and x[1] == frame.uid and x[2] == h))
-                            tag = tag + (("L", frame.uid, h, fk),)
+                            # next to the head's own key (which may count known positions), not instead of it
+                            tag = tuple(x for x in tag if not (isinstance(x, tuple) and len(x) == 4 and x[0] == "F" and x[1] == frame.uid and x[2] == h))
+                            if fk:
+                                tag = tag + (("F", frame.uid, h, fk),)
             if bb in loops:
                 scc, mod, has_next = loops[bb]
-                tag = tuple(x for x in tag if not (isinstance(x, tuple) and len(x) == 4 and x[0] == "L" and x[1] == frame.uid and x[2] == bb))
+                tag = tuple(x for x in tag if not (isinstance(x, tuple) and len(x) == 4 and x[0] in ("L", "F") and x[1] == frame.uid and x[2] == bb))
                 if (body.key, bb) not in self.part_overflow:
                     lk = self.loop_key(s, frame, mod, has_next)
                     nkeys = sum(1 for (b2, t2) in in_states if b2 == bb)
@@ -931,7 +936,7 @@ class Engine(Interp):
                         if self.hooks.get("return"):
                             self.emit("return", frame=frame, st=s2)
                         # strip this frame's loop tags
-                        t2 = tuple(x for x in s2.tag if not (isinstance(x, tuple) and len(x) == 4 and x[0] in ("L", "it") and x[1] == frame.uid))
+                        t2 = tuple(x for x in s2.tag if not (isinstance(x, tuple) and len(x) == 4 and x[0] in ("L", "it", "F") and x[1] == frame.uid))
                         if strip_all:
                             n_uid = len(frame.uid)
                             t2 = tuple(x for x in t2 if not (isinstance(x, tuple) and len(x) >= 2 and isinstance(x[1], tuple) and x[1][:n_uid] == frame.uid))
